@@ -7,10 +7,10 @@ Close Scope Q_scope.
 Open Scope string_scope.
 Open Scope list_scope.
 
-(* Evaluation for the comparison: binary fixed point with 120 fractional bits (values are Z mantissas).
+(* Evaluation for the comparison: binary fixed point with 64 fractional bits (values are Z mantissas).
    Exact rational arithmetic on Fraction(float) inputs would spend its time in gcds of 500-bit numbers;
-   the rounding error here (2^-120 per operation) is far below the tolerance 1e-12. *)
-Definition SH : Z := 120%Z.
+   the rounding error here (2^-64 per operation, a few hundred operations per coefficient) is far below the tolerance 1e-12. *)
+Definition SH : Z := 64%Z.
 Definition fx_ofQ (q : Q) : Z := Z.div (Z.shiftl (Qnum q) SH) (Zpos (Qden q)).
 Definition fx_mul (a b : Z) : Z := Z.shiftr (a * b) SH.
 Definition FxRing : Ring Z := mkRing 0%Z (Z.shiftl 1 SH) Z.add fx_mul Z.opp Z.eqb.
@@ -20,11 +20,8 @@ Definition qclose (x : Z) (y : Q) : bool := Z.leb (Z.abs (x - fx_ofQ y)) fx_tol.
 (* evaluation point: c = cos θ', s = sin θ' (rational on the exact stream), r ≈ 1/sqrt 2,
    w = [cos a; sin a; cos b; sin b; cos c; sin c] of the observed Weyl coordinates (KAK path) *)
 Definition QenvCoef (c s : Q) (w : list Q) : Coef Z :=
-  mkCoef FxRing fx_ofQ
-         (fun n => match n with
-                   | 0 => fx_ofQ c | 1 => fx_ofQ s | 2 => fx_ofQ r_approx
-                   | _ => if Nat.leb n 8 then fx_ofQ (nth (n - 3) w 0%Q) else 0%Z
-                   end).
+  let vals := map fx_ofQ ([c; s; r_approx] ++ firstn 6 w) in       (* converted once *)
+  mkCoef FxRing fx_ofQ (fun n => nth n vals 0%Z).
 
 (* ---------- operation codes shared with harness/c02.py ---------- *)
 Definition ang_code (a : ang) : nat :=
